@@ -4,15 +4,15 @@ Import ListNotations.
 From SAV.orm Require Import Version VersionBase VersionStmts VersionInv VersionFlush VersionStep VersionTheorems.
 Open Scope Z_scope.
 
-Definition rows12 : rows := [(1, {| rx := 0; rv := 1 |}); (2, {| rx := 0; rv := 1 |})].
+Definition rows12 : rows := [(1, {| rx := (0, 0); rv := 1 |}); (2, {| rx := (0, 0); rv := 1 |})].
 Definition no_eoc (i : nat) : bool := false.
 
 (* session 0 loads rows 1 and 2 and ends its transaction; session 1 changes row 1 and commits;
    session 0 then marks both instances deleted (w_del) / modifies both (w_upd) *)
 Definition w_prefix : list (nat * op) :=
-  [(0%nat, Load 1); (0%nat, Load 2); (0%nat, Commit); (1%nat, SetX 1 5); (1%nat, Commit)].
+  [(0%nat, Load 1); (0%nat, Load 2); (0%nat, Commit); (1%nat, SetX 1 false 5); (1%nat, Commit)].
 Definition w_del : list (nat * op) := w_prefix ++ [(0%nat, Del 1); (0%nat, Del 2)].
-Definition w_upd : list (nat * op) := w_prefix ++ [(0%nat, SetX 1 7); (0%nat, SetX 2 8)].
+Definition w_upd : list (nat * op) := w_prefix ++ [(0%nat, SetX 1 false 7); (0%nat, SetX 2 false 8)].
 
 Definition st_del (sane_rc sane_multi : bool) : state := run false sane_rc sane_multi no_eoc Z.succ w_del (init rows12).
 Definition st_upd (sane_rc sane_multi : bool) : state := run false sane_rc sane_multi no_eoc Z.succ w_upd (init rows12).
@@ -24,12 +24,12 @@ Proof. intros. exists w_upd. reflexivity. Qed.
 
 Lemma st_del_stale : forall a b, stale_del (st_del a b) 0.
 Proof.
-  intros a b. exists 1, {| ex := 0; ev := 1; epend := None; edel := true |}.
+  intros a b. exists 1, {| ex := (0, 0); ev := 1; epend := None; edel := true |}.
   destruct a, b; vm_compute; (split; [left; reflexivity|split; reflexivity]).
 Qed.
 Lemma st_upd_stale : forall a b, stale_upd (st_upd a b) 0.
 Proof.
-  intros a b. exists 1, {| ex := 0; ev := 1; epend := Some 7; edel := false |}.
+  intros a b. exists 1, {| ex := (0, 0); ev := 1; epend := Some (7, 0); edel := false |}.
   destruct a, b; vm_compute; (split; [left; reflexivity|split; reflexivity]).
 Qed.
 
@@ -37,7 +37,7 @@ Qed.
    (which the session believes deleted) is still there *)
 Lemma multi_delete_unchecked :
   snd (step false true false no_eoc Z.succ 0 Commit (st_del true false)) = ROk /\
-  com (sdb (fst (step false true false no_eoc Z.succ 0 Commit (st_del true false)))) = [(1, {| rx := 5; rv := 2 |})] /\
+  com (sdb (fst (step false true false no_eoc Z.succ 0 Commit (st_del true false)))) = [(1, {| rx := (5, 0); rv := 2 |})] /\
   n_dels (st_del true false) 0 = 2%nat.
 Proof. vm_compute. repeat split. Qed.
 
@@ -45,14 +45,14 @@ Proof. vm_compute. repeat split. Qed.
 Lemma multi_delete_checked :
   snd (step false true true no_eoc Z.succ 0 Commit (st_del true true)) = RStale /\
   com (sdb (fst (step false true true no_eoc Z.succ 0 Commit (st_del true true)))) =
-    [(1, {| rx := 5; rv := 2 |}); (2, {| rx := 0; rv := 1 |})].
+    [(1, {| rx := (5, 0); rv := 2 |}); (2, {| rx := (0, 0); rv := 1 |})].
 Proof. vm_compute. repeat split. Qed.
 
 (* a dialect without sane rowcount verifies nothing: the stale UPDATE matches no row, the flush succeeds *)
 Lemma no_sane_rowcount_unchecked :
   snd (step false false false no_eoc Z.succ 0 Commit (st_upd false false)) = ROk /\
   com (sdb (fst (step false false false no_eoc Z.succ 0 Commit (st_upd false false)))) =
-    [(1, {| rx := 5; rv := 2 |}); (2, {| rx := 8; rv := 2 |})].
+    [(1, {| rx := (5, 0); rv := 2 |}); (2, {| rx := (8, 0); rv := 2 |})].
 Proof. vm_compute. repeat split. Qed.
 
 Lemma stale_update_fails :
@@ -60,17 +60,17 @@ Lemma stale_update_fails :
 Proof. vm_compute. reflexivity. Qed.
 
 (* the database refuses first: session 0 still reads from the snapshot taken before session 1 committed *)
-Definition w_busy : list (nat * op) := [(0%nat, SetX 1 7); (1%nat, SetX 1 5); (1%nat, Commit)].
+Definition w_busy : list (nat * op) := [(0%nat, SetX 1 false 7); (1%nat, SetX 1 false 5); (1%nat, Commit)].
 Lemma busy_example :
   snd (step false true true no_eoc Z.succ 0 Commit (run false true true no_eoc Z.succ w_busy (init rows12))) = RBusy.
 Proof. vm_compute. reflexivity. Qed.
 
 (* a successful commit of an UPDATE (hypotheses of no_lost_update are satisfiable) *)
 Lemma ok_example :
-  let s := run false true true no_eoc Z.succ [(0%nat, SetX 1 7)] (init rows12) in
+  let s := run false true true no_eoc Z.succ [(0%nat, SetX 1 false 7)] (init rows12) in
   snd (step false true true no_eoc Z.succ 0 Commit s) = ROk /\
-  In (1, {| ex := 0; ev := 1; epend := Some 7; edel := false |}) (sents (sget 0 (sss s))) /\
-  com (sdb (fst (step false true true no_eoc Z.succ 0 Commit s))) = [(1, {| rx := 7; rv := 2 |}); (2, {| rx := 0; rv := 1 |})].
+  In (1, {| ex := (0, 0); ev := 1; epend := Some (7, 0); edel := false |}) (sents (sget 0 (sss s))) /\
+  com (sdb (fst (step false true true no_eoc Z.succ 0 Commit s))) = [(1, {| rx := (7, 0); rv := 2 |}); (2, {| rx := (0, 0); rv := 1 |})].
 Proof. vm_compute. split; [reflexivity|split; [left; reflexivity|reflexivity]]. Qed.
 
 Lemma succ_increasing : forall v, v < Z.succ v.
